@@ -347,7 +347,13 @@ retryResolution:
 		// If the cache returned nothing then we'll have no results here,
 		// so go and hit the network.
 		if len(resolutionResults) == 0 {
-			resolutionResults, err = ResolveServer(r.Context(), serverName)
+			// A client restricted to certain networks must not fetch the
+			// well-known file from an address outside them either.
+			var wellKnownDial dialContextFunc
+			if f.dialer.ControlContext != nil {
+				wellKnownDial = f.dialer.DialContext
+			}
+			resolutionResults, err = resolveServer(r.Context(), serverName, true, wellKnownDial)
 			if err != nil {
 				return nil, err
 			}
